@@ -275,7 +275,9 @@ pub fn judge_with_cursors(model: &Model, scn: &ReadScn, log: &RunLog, o: &JudgeO
             for one in outs {
                 match one {
                     Out::End => {
-                        if !fault && !refused {
+                        // (the items of a drain come from one iterator object: whatever was
+                        // refused earlier in that drain, a None of that iterator is its end)
+                        if !fault && (!refused || matches!(step.op, Op::Drain)) {
                             end_reported = true;
                         }
                     }
@@ -304,7 +306,16 @@ pub fn judge_with_cursors(model: &Model, scn: &ReadScn, log: &RunLog, o: &JudgeO
             }
             Op::Drain => {
                 if let Out::Drained(v) = &step.out {
-                    let mut ph = if fault || refused {
+                    // Under a policy that refuses its first k requests and then agrees for good
+                    // (RefuseFirst, never replaced) every record is within the permitted sizes in
+                    // the end: apart from the BufferLimit items themselves the drain has to deliver
+                    // exactly what the model says ("records that fit within the permitted sizes are
+                    // parsed normally", and a refusal does not end the iterator)
+                    let strict = refused
+                        && !fault
+                        && matches!(scn.cfgs.first().map(|c| &c.policy), Some(PolicySpec::RefuseFirst(_)))
+                        && !scn.ops.iter().any(|x| matches!(x, Op::SetPolicy(_)));
+                    let mut ph = if (fault || refused) && !strict {
                         match phase {
                             Phase::Exact(c) | Phase::AtEnd(c) | Phase::Loose(c) => Phase::Loose(c),
                             Phase::Done => Phase::Loose(0),
@@ -319,7 +330,10 @@ pub fn judge_with_cursors(model: &Model, scn: &ReadScn, log: &RunLog, o: &JudgeO
                         let mut st = step.clone();
                         st.pos = None;
                         let is_err = matches!(one, Out::Err(e, _) if !e.is_format());
-                        ph = judge_single(model, ph, one, true, fault && is_err, refused && is_err, io_seen, &st, o, &at2, &mut viol);
+                        if strict && matches!(one, Out::Err(ErrObs::BufferLimit, _)) {
+                            continue;
+                        }
+                        ph = judge_single(model, ph, one, true, fault && is_err, refused && is_err && !strict, io_seen, &st, o, &at2, &mut viol);
                     }
                     // a fault-free drain must end with end of input reported twice
                     let n = v.len();
